@@ -24,6 +24,8 @@ const preludeSorts = `(declare-sort Str 0)
 (declare-fun ssub (Str Int Int) Str)
 (declare-fun sconcat (Str Str) Str)
 (declare-fun bytes2str ((Array Int Int) Int Int) Str)
+(declare-fun runeAt (Str Int) Int)
+(declare-fun runeLen (Str Int) Int)
 (declare-fun srank (Str) Int)
 (declare-fun sunrank (Int) Str)
 (define-fun godiv ((a Int) (b Int)) Int (ite (>= a 0) (ite (> b 0) (div a b) (- (div a (- b)))) (ite (> b 0) (- (div (- a) b)) (div (- a) (- b)))))
@@ -37,9 +39,10 @@ type axiomGroup struct {
 }
 
 var preludeAxioms = []axiomGroup{
-	{"ssub", `(assert (forall ((s Str) (a Int) (b Int)) (! (= (slen (ssub s a b)) (- b a)) :pattern ((ssub s a b)))))
-(assert (forall ((s Str) (a Int) (b Int) (i Int)) (! (=> (and (<= 0 i) (< i (- b a))) (= (sat (ssub s a b) i) (sat s (+ a i)))) :pattern ((sat (ssub s a b) i)))))
-(assert (forall ((s Str)) (! (= (ssub s 0 (slen s)) s) :pattern ((slen s)))))
+	{"ssub", `(assert (forall ((s Str) (a Int) (b Int)) (! (=> (and (<= 0 a) (<= a b)) (= (slen (ssub s a b)) (- b a))) :pattern ((ssub s a b)))))
+(assert (forall ((s Str) (a Int) (b Int) (i Int)) (! (=> (and (<= 0 a) (<= 0 i) (< i (- b a))) (= (sat (ssub s a b) i) (sat s (+ a i)))) :pattern ((sat (ssub s a b) i)))))
+(assert (forall ((s Str)) (! (= (ssub s 0 (slen s)) s) :pattern ((ssub s 0 (slen s))))))
+(assert (forall ((s Str) (a Int) (b Int) (c Int) (d Int)) (! (=> (and (<= 0 a) (<= 0 c) (<= c d) (<= (+ a d) b)) (= (ssub (ssub s a b) c d) (ssub s (+ a c) (+ a d)))) :pattern ((ssub (ssub s a b) c d)))))
 `},
 	{"sconcat", `(assert (forall ((a Str) (b Str)) (! (= (slen (sconcat a b)) (+ (slen a) (slen b))) :pattern ((sconcat a b)))))
 (assert (forall ((a Str) (b Str) (i Int)) (! (= (sat (sconcat a b) i) (ite (< i (slen a)) (sat a i) (sat b (- i (slen a))))) :pattern ((sat (sconcat a b) i)))))
@@ -50,7 +53,10 @@ var preludeAxioms = []axiomGroup{
 	{"srank", `(assert (forall ((s Str)) (! (and (>= (srank s) 0) (= (sunrank (srank s)) s)) :pattern ((srank s)))))
 (assert (= (srank str-empty) 0))
 `},
-	{"slen", `(assert (forall ((s Str)) (! (>= (slen s) 0) :pattern ((slen s)))))
+	{"runeAt", `(assert (forall ((s Str) (i Int)) (! (=> (and (<= 0 i) (< i (slen s))) (and (<= 1 (runeLen s i)) (<= (runeLen s i) 4) (<= (+ i (runeLen s i)) (slen s)) (<= 0 (runeAt s i)) (<= (runeAt s i) 1114111) (=> (< (sat s i) 128) (and (= (runeAt s i) (sat s i)) (= (runeLen s i) 1))) (=> (>= (sat s i) 128) (>= (runeAt s i) 128)))) :pattern ((runeAt s i)))))
+(assert (forall ((s Str) (i Int)) (! (=> (and (<= 0 i) (< i (slen s))) (and (<= 1 (runeLen s i)) (<= (runeLen s i) 4) (<= (+ i (runeLen s i)) (slen s)) (=> (< (sat s i) 128) (= (runeLen s i) 1)))) :pattern ((runeLen s i)))))
+`},
+	{"slen", `(assert (forall ((s Str)) (! (and (>= (slen s) 0) (=> (= (slen s) 0) (= s str-empty))) :pattern ((slen s)))))
 `},
 }
 
